@@ -23,66 +23,142 @@ pub const OP_PEEK_LO: u8 = 11;
 pub const OP_LOOKUPS: u8 = 12;
 pub const OP_REBUILD: u8 = 13;
 
-const fn log2(n: usize) -> u32 {
-    if n == 0 {
+/// depth of a heap position (root = 0)
+pub fn depth(pos: usize) -> u32 {
+    usize::BITS - 1 - (pos + 1).leading_zeros()
+}
+
+/// number of levels below `pos` in a heap of `n` elements (0 for a leaf or a position
+/// outside the heap): the longest downward path starts with left children
+pub fn levels_below(pos: usize, n: usize) -> u32 {
+    let mut h = 0;
+    let mut p = pos;
+    while 2 * p + 1 < n {
+        p = 2 * p + 1;
+        h += 1;
+    }
+    h
+}
+
+/// One sift-up from depth `d`: a max-heap compares with one ancestor per level; the min-max
+/// heap with the parent once and then with every second ancestor.
+fn up(double: bool, d: u32) -> u32 {
+    if !double {
+        d
+    } else if d == 0 {
         0
     } else {
-        usize::BITS - 1 - n.leading_zeros()
+        1 + d / 2
     }
 }
 
-/// The budget: what one sift-up plus one sift-down along a single root-to-leaf path may
-/// cost in a heap of `n` elements (n = largest size during the operation).
-pub const fn budget(double: bool, op: u8, n: usize) -> u32 {
-    let l = log2(n);
-    if op == OP_PEEK_LO || op == OP_LOOKUPS {
-        return 0;
-    }
-    if op == OP_PEEK_HI {
-        return if double { 1 } else { 0 };
-    }
-    if op == OP_REBUILD {
-        // Floyd: at most 2n (max-heap) / 7n (min-max heap: <= 5 + 2 per trickle step)
-        return if double { 7 * n as u32 } else { 2 * n as u32 };
-    }
-    let extra = if op == OP_PUSH_INC || op == OP_PUSH_DEC { 1 } else { 0 };
+/// One sift-down over `h` levels: a max-heap makes two comparisons per level; the min-max
+/// heap handles two levels per round with at most seven (five to find the extreme of up to
+/// six candidates, one against the sifted element, one against the parent).
+fn down(double: bool, h: u32) -> u32 {
     if !double {
-        // sift-up: 1 per level; sift-down: 2 per level; one spare comparison
-        if op == OP_POP_HI || op == OP_POP_HI_IF {
-            // extraction only sifts down
-            2 * l + 1
-        } else {
-            // updates and removal may sift either way (push of a new item only up)
-            3 * l + 1 + extra
-        }
+        2 * h
     } else {
-        // bubble-up: 1 + ceil(l/2); one trickle-down: 7 per two levels; the operations
-        // that may move an element either way re-sift at most two positions;
-        // find_max costs one more
-        let half = (l + 1) / 2;
-        let up = 1 + half;
-        let down = 7 * half;
-        if op == OP_POP_LO {
-            down
-        } else if op == OP_POP_HI {
-            1 + down
-        } else if op == OP_POP_LO_IF {
-            down
-        } else {
-            // pop_max_if goes through up_heapify like the updates
-            1 + up + 2 * down + extra
+        7 * ((h + 1) / 2)
+    }
+}
+
+/// The single-path budget of an operation, *as a function of the heap position it addresses*:
+/// an update or removal at `pos` may sift the element up from the depth of `pos` **or** down
+/// over the levels below `pos`, never both over their full length -- after a move up, the
+/// check at the new position (and, in the min-max heap, at the old one) is one round.
+/// `n` = number of elements while the sift runs. `slack` covers an implementation that looks
+/// before it sifts (one comparison to pick the direction, one spare).
+pub fn budget_at(double: bool, op: u8, pos: Option<usize>, n: usize) -> u32 {
+    let slack = 2;
+    let round = down(double, if double { 2 } else { 1 });
+    let either = |pos: usize, n: usize| -> u32 {
+        let d = depth(pos);
+        let moved_up = up(double, d) + round + if double { round } else { 0 };
+        let moved_down = if d > 0 { 1 } else { 0 } + down(double, levels_below(pos, n));
+        (if moved_up > moved_down { moved_up } else { moved_down }) + slack
+    };
+    match op {
+        OP_PEEK_LO | OP_LOOKUPS => 0,
+        OP_PEEK_HI => {
+            if double {
+                1
+            } else {
+                0
+            }
+        }
+        OP_REBUILD => {
+            // Floyd: one sift-down per internal node
+            let mut b = 0;
+            let mut i = 0;
+            while 2 * i + 1 < n {
+                b += down(double, levels_below(i, n));
+                i += 1;
+            }
+            b
+        }
+        OP_PUSH | OP_PUSH_INC | OP_PUSH_DEC => match pos {
+            // a new element enters at position n-1 (n counts it) and can only rise
+            None => up(double, depth(n - 1)) + 1,
+            Some(p) => either(p, n) + if op == OP_PUSH { 0 } else { 1 },
+        },
+        OP_CHANGE | OP_CHANGE_BY => match pos {
+            None => 0,
+            Some(p) => either(p, n),
+        },
+        OP_REMOVE => match pos {
+            None => 0,
+            // n counts the removed element; the last element takes its place
+            Some(p) => {
+                if p + 1 >= n {
+                    1
+                } else {
+                    either(p, n - 1)
+                }
+            }
+        },
+        OP_POP_HI | OP_POP_LO => {
+            if n <= 1 {
+                0
+            } else if double && op == OP_POP_HI {
+                // one comparison finds the maximum among positions 1 and 2
+                1 + down(double, levels_below(1, n - 1)) + 1
+            } else {
+                down(double, levels_below(0, n - 1)) + 1
+            }
+        }
+        OP_POP_LO_IF => down(double, levels_below(0, n)) + 1,
+        _ => {
+            // OP_POP_HI_IF: the max-heap re-sifts the root down; the min-max heap finds the
+            // maximum and re-sifts it either way
+            if !double {
+                down(double, levels_below(0, n)) + 1
+            } else if n <= 1 {
+                1
+            } else {
+                1 + either(1, n)
+            }
         }
     }
 }
 
 pub fn cost<T: Q, const N: usize>(op: u8, tables: Tables) {
-    let (mut q, _gh) = state::<T, N>(Pre::Inv, tables);
+    let (mut q, gh) = state::<T, N>(Pre::Inv, tables);
     let k = tables.pick_key();
+    // heap position of the addressed element (None: the key is absent)
+    let mut pos: Option<usize> = None;
+    let mut s = 0;
+    while s < N {
+        if gh.key[s] == k {
+            pos = Some(gh.qp[s]);
+        }
+        s += 1;
+    }
     let p = sym::u8();
     let verdict = sym::bool();
     hook::start_count(hook::CB_CMP);
     let nmax = match op {
-        OP_PUSH | OP_PUSH_INC | OP_PUSH_DEC => N + 1,
+        OP_PUSH | OP_PUSH_INC | OP_PUSH_DEC if pos.is_none() => N + 1,
         _ => N,
     };
     match op {
@@ -124,13 +200,13 @@ pub fn cost<T: Q, const N: usize>(op: u8, tables: Tables) {
         }
         OP_PEEK_HI => {
             let _ = q.peek_hi().map(|(i, _)| i.key);
-            assert!(hook::calls() <= budget(T::DOUBLE, op, nmax), "COST: peek/peek_max within its budget");
+            assert!(hook::calls() <= budget_at(T::DOUBLE, op, pos, nmax), "COST: peek/peek_max within its budget");
             hook::start_count(hook::CB_CMP);
             let _ = q.peek_hi_mut().map(|(i, _)| i.key);
         }
         OP_PEEK_LO => {
             let _ = q.peek_lo().map(|(i, _)| i.key);
-            assert!(hook::calls() <= budget(T::DOUBLE, op, nmax), "COST: peek_min within its budget");
+            assert!(hook::calls() <= budget_at(T::DOUBLE, op, pos, nmax), "COST: peek_min within its budget");
             hook::start_count(hook::CB_CMP);
             let _ = q.peek_lo_mut().map(|(i, _)| i.key);
         }
@@ -150,9 +226,87 @@ pub fn cost<T: Q, const N: usize>(op: u8, tables: Tables) {
     }
     let c = hook::calls();
     hook::stop();
-    let b = budget(T::DOUBLE, op, nmax);
+    let b = budget_at(T::DOUBLE, op, pos, nmax);
     assert!(c <= b, "COST: number of priority comparisons within the single-path budget");
     cover!(c == b, "budget is attained");
     cover!(true, "reach: end of harness");
     let _ = KEYS;
+}
+
+// ------------------------------------------------------------------------------------
+// the bulk operations that re-establish order: one Floyd rebuild, i.e. one sift-down per
+// internal node (the sum over the internal nodes of their sift-down budgets is O(n))
+// ------------------------------------------------------------------------------------
+pub const B_FROM_VEC: u8 = 0;
+pub const B_FROM_ITER: u8 = 1;
+pub const B_RETAIN: u8 = 2;
+pub const B_RETAIN_MUT: u8 = 3;
+pub const B_CONVERT: u8 = 4;
+pub const B_APPEND: u8 = 5;
+pub const B_ITER_MUT: u8 = 6;
+
+pub fn cost_bulk<T: Q, const N: usize>(which: u8, tables: Tables) {
+    let mut double = T::DOUBLE;
+    let mut n_final = N;
+    let c;
+    match which {
+        B_FROM_VEC | B_FROM_ITER => {
+            let mut v = Vec::with_capacity(N);
+            let mut j = 0;
+            while j < N {
+                v.push((Item::new(j as u8, 0), Pr(sym::u8())));
+                j += 1;
+            }
+            hook::start_count(hook::CB_CMP);
+            let q = if which == B_FROM_VEC { T::from_vec(v) } else { T::from_iter_q(v) };
+            c = hook::calls();
+            hook::stop();
+            assert!(q.len() == N);
+        }
+        B_CONVERT => {
+            let (q, _gh) = state::<T, N>(Pre::Inv, tables);
+            double = !T::DOUBLE;
+            hook::start_count(hook::CB_CMP);
+            let o = q.into_other();
+            c = hook::calls();
+            hook::stop();
+            assert!(o.len() == N);
+        }
+        B_APPEND => {
+            let (mut q, _gh) = crate::gen::state_keys::<T, N>(Pre::Inv, tables, crate::gen::iota::<N>());
+            let (mut other, _ogh) = crate::gen::state_keys::<T, 1>(Pre::Inv, tables, [N as u8]);
+            n_final = N + 1;
+            hook::start_count(hook::CB_CMP);
+            q.append(&mut other);
+            c = hook::calls();
+            hook::stop();
+            assert!(q.len() == N + 1);
+        }
+        _ => {
+            let (mut q, _gh) = state::<T, N>(Pre::Inv, tables);
+            let w = sym::u8();
+            hook::start_count(hook::CB_CMP);
+            match which {
+                B_RETAIN => q.retain(|_, _| true),
+                B_RETAIN_MUT => q.retain_mut(|_, p| {
+                    p.0 = p.0.wrapping_mul(w);
+                    true
+                }),
+                _ => {
+                    let mut it = q.iter_mut_q();
+                    while let Some((_, p)) = it.next() {
+                        p.0 = p.0.wrapping_mul(w);
+                    }
+                    drop(it);
+                }
+            }
+            c = hook::calls();
+            hook::stop();
+            assert!(q.len() == N);
+        }
+    }
+    let b = budget_at(double, OP_REBUILD, None, n_final);
+    assert!(c <= b, "COST: a rebuild makes at most one sift-down per internal node (O(n) comparisons)");
+    cover!(c == b, "budget is attained");
+    cover!(true, "reach: end of harness");
 }
